@@ -10,8 +10,7 @@ from gambatools.nfa import NFA
 from gambatools.regexp import Regexp
 from gambatools.regexp_algorithms import regexp_to_nfa, dfa_to_regexp
 
-ASSUMPTIONS = ["DFA state names are never 'start' or 'accept' (dfa_to_gnfa asserts this: a stated precondition)",
-               "symbols are single characters"]
+ASSUMPTIONS = ["symbols are single characters"]
 
 
 def ref_dfa(t, S):
@@ -59,7 +58,10 @@ def run_d2r(case):
     if B.snap_dfa(D) != before:
         raise Fail("mutates_argument", "dfa_to_regexp changed its argument")
     c = fa.canonical_min(A)
-    return {"nt": len(fa.reachable(A)) >= 2 and len(c[1]) >= 2, "cls": ["states_%d" % len(spec["Q"])], "out": {"regexp_nodes": RX.size(t)}}
+    cls = ["states_%d" % len(spec["Q"])]
+    if set(spec["Q"]) & {"start", "accept"}:
+        cls.append("state_named_start_or_accept")
+    return {"nt": len(fa.reachable(A)) >= 2 and len(c[1]) >= 2, "cls": cls, "out": {"regexp_nodes": RX.size(t)}}
 
 
 @st.composite
@@ -68,8 +70,17 @@ def r2n_cases(draw, tier):
     return {"re": draw(GR.trees(syms, max_leaves=12))}
 
 
+GNFA_NAMES = ["start", "accept", "start0", "accept0", "start1", "accept1", "q0", "q1"]
+
+
 @st.composite
 def d2r_cases(draw, tier):
+    if draw(st.integers(0, 7)) == 0:
+        # state names that coincide with the names dfa_to_gnfa gives to the two states it adds
+        return {"dfa": draw(G.dfa_specs(min_states=2, max_states=5, max_sigma=2, pool=GNFA_NAMES)), "gnfa_names": True}
+    if draw(st.integers(0, 2)) == 0:
+        # hubs connected by words and their rotations: eliminated intermediate states leave concatenations like a.b next to b.a
+        return {"dfa": draw(G.word_graph_dfa_specs())}
     if draw(st.integers(0, 3)) == 0:
         return {"dfa": draw(G.dfa_specs(max_states=3, sigma=["a", "b", "c"]))}      # three symbols: parallel edges with a different edge in between
     return {"dfa": draw(G.dfa_specs(max_states=4 if tier == "quick" else 5, max_sigma=2))}
